@@ -67,7 +67,7 @@ def judge_metadata(ctx, res, md, w, extractor):
     # user metadata
     user = {k: v for k, v in md.items() if isinstance(k, str) and k.startswith('u_')}
     ran = [e for e in j.events if e['ev'] == 'extractor']
-    if extractor in ('ok', 'ok_calls_output'):
+    if extractor in ('ok', 'ok_calls_output', 'ok_live_mapping'):
         if user != {'u_tag': 'live', 'u_n': 3}:
             ctx.violation('user metadata differs from what the extractor returned', dict(w, got=repr(user)))
         ctx.count('extractor_ok_checked')
@@ -102,7 +102,15 @@ def run_program(ctx, prog, rng, pidx):
     kind = ('memory', 'file', 's3')[pidx % 3]
     with open_box(kind) as box:
         spy = SpyCassette(box.cassette)
-        rec = TapeRecorder(spy)
+        if pidx % 4 == 3:
+            # the service uses its own subclass of the recorder and redefines public class constants of it
+            class ServiceRecorder(TapeRecorder):
+                OPERATION_OUTPUT_ALIAS = 'service_operation'
+                INCOMPLETE_RECORDING = TapeRecorder.INCOMPLETE_RECORDING
+            rec = ServiceRecorder(spy)
+            ctx.count('programs_on_a_recorder_subclass')
+        else:
+            rec = TapeRecorder(spy)
         rec._random = SpyRandom(3)
         rec.enable_recording()
         complete_ids, incomplete_ids = [], []
